@@ -718,9 +718,11 @@ void updateComponentsVariablesUnitsNames(const std::string &name, const Componen
     for (size_t variableIndex = 0; variableIndex < component->variableCount(); ++variableIndex) {
         auto variable = component->variable(variableIndex);
         if (component->isImport()) {
-            auto importModel = component->importSource()->model();
-            auto importComponent = importModel->component(component->importReference());
-            variable = importComponent->variable(variable->name());
+            // The variables of a component that is still to be instantiated are
+            // placeholders: the units of the real variables are dealt with when
+            // that component is itself flattened (the imported model is not ours
+            // to modify).
+            continue;
         }
         if (variable->units()->name() == name) {
             variable->setUnits(units);
